@@ -110,6 +110,7 @@ type expectedGetWithPrefix struct {
 	filters     []FilterFn
 	expectedKey []byte
 	expectedTx  uint64 // 0 used to denote non-existence
+	ownEntry    bool   // the answer was an entry written by the ongoing tx
 }
 
 type EntrySpec struct {
@@ -564,22 +565,30 @@ func (tx *OngoingTx) GetWithPrefixAndFilters(ctx context.Context, prefix, neq []
 		return nil, nil, err
 	}
 
-	if !tx.IsReadOnly() && valRef.Tx() > 0 {
-		// it only requires validation when the entry was pre-existent to ongoing tx
+	if !tx.IsReadOnly() {
+		// an answer given by an entry of the ongoing tx (Tx() == 0) still asserts that
+		// no smaller key with the prefix exists: it is validated as well
+		ownEntry := valRef.Tx() == 0
+
 		expectedGetWithPrefix := expectedGetWithPrefix{
 			prefix:      cp(prefix),
 			neq:         cp(neq),
 			filters:     filters,
 			expectedKey: cp(key),
 			expectedTx:  valRef.Tx(),
+			ownEntry:    ownEntry,
 		}
 
-		if tx.mvccReadSetLimitReached() {
+		// reads answered by own entries never counted for the read-set limit
+		if !ownEntry && tx.mvccReadSetLimitReached() {
 			return nil, nil, ErrMVCCReadSetLimitExceeded
 		}
 
 		tx.mvccReadSet.expectedGetsWithPrefix = append(tx.mvccReadSet.expectedGetsWithPrefix, expectedGetWithPrefix)
-		tx.mvccReadSet.readsetSize++
+
+		if !ownEntry {
+			tx.mvccReadSet.readsetSize++
+		}
 	}
 
 	return key, valRef, nil
@@ -853,6 +862,18 @@ func (tx *OngoingTx) checkPreconditions(ctx context.Context, st *ImmuStore) erro
 				continue
 			}
 
+			if e.ownEntry {
+				// the tx's own key was the first one: no other key may precede it now
+				key, _, err := snap.GetWithPrefixAndFilters(ctx, e.prefix, e.neq)
+				if err != nil && !errors.Is(err, ErrKeyNotFound) {
+					return err
+				}
+				if err == nil && bytes.Compare(key, e.expectedKey) < 0 {
+					return ErrTxReadConflict
+				}
+				continue
+			}
+
 			key, valRef, err := snap.GetWithPrefixAndFilters(ctx, e.prefix, e.neq, e.filters...)
 			if errors.Is(err, ErrKeyNotFound) {
 				if e.expectedTx > 0 {
@@ -921,6 +942,13 @@ func (tx *OngoingTx) checkPreconditions(ctx context.Context, st *ImmuStore) erro
 							// key was updated by the transaction
 							key = nil
 							valRef = nil
+						} else if err == nil {
+							// the entry written by the transaction was read right after the previous one:
+							// no other entry may come before it now
+							cmp := bytes.Compare(key, eRead.expectedKey)
+							if (!eReader.spec.DescOrder && cmp < 0) || (eReader.spec.DescOrder && cmp > 0) {
+								return fmt.Errorf("%w: fetching an entry before one written by the transaction", ErrTxReadConflict)
+							}
 						}
 					} else {
 						if errors.Is(err, ErrNoMoreEntries) {
